@@ -11,6 +11,7 @@ from a given handshake step on, TCP segmentation of everything it sends.
 from __future__ import annotations
 
 import asyncio
+import copy
 import dataclasses
 import logging
 import random
@@ -205,7 +206,8 @@ class Console:
         r = self.c.impl_encode(msg)
         if r[0] != "ok":
             raise RuntimeError(f"console cannot encode {msg!r}: {r}")
-        FRAMED[self.gen].setdefault(repr(msg), (msg, bytes(r[2])))
+        if repr(msg) not in FRAMED[self.gen]:
+            FRAMED[self.gen][repr(msg)] = (copy.deepcopy(msg), bytes(r[2]))
         if self.stride_pad and self.gen == 5 and msg.message_id == 0xC0:
             r = (r[0], r[1], restride(bytes(r[2]), self.stride_pad))
         frm = 0x90 if msg.message_id == 0x1F else 0x80
